@@ -291,9 +291,9 @@ class FakeNet:
 
 
 def _is_zero(x):
-    if isinstance(x, (int, float)):
-        return x == 0
-    return False
+    # only the literal integer 0 means "no suspension at all"; a latency of 0.0 (concrete replay of a symbolic
+    # latency) still yields once, exactly like asyncio.sleep(0) does for the symbolic value
+    return isinstance(x, int) and not isinstance(x, bool) and x == 0
 
 
 class SegmentedReader:
